@@ -21,6 +21,7 @@ import (
 
 	. "gopkg.in/check.v1"
 
+	"github.com/snapcore/snapd/dirs"
 	eng "github.com/snapcore/snapd/verifengine"
 )
 
@@ -107,6 +108,67 @@ func c11Invariants(f *vFix) []string {
 		}
 	}
 	return v
+}
+
+// c11AuxFault is the environment fault "the auxiliary store info cannot be written" (vOp.T): for the time of
+// the change a regular file stands where dirs.SnapAuxStoreInfoDir should be, so that link-snap's own handler
+// fails after backend.LinkSnap succeeded (keepAuxStoreInfo runs for every revision that has a snap-id). The
+// task-level splice points cannot place a failure there.
+const c11AuxFault = "aux"
+
+// c11Links says whether the operation links a revision (its change has a link-snap task for a revision that
+// may carry a snap-id); sideload never has a snap-id, the remove/disable family links nothing.
+func c11Links(op vOp) bool {
+	switch op.K {
+	case "install", "refresh-new", "refresh-kept", "revert-to", "enable":
+		return true
+	}
+	return false
+}
+
+// c11Run is vFix.vRun plus the environment fault c11AuxFault; every operation of a C11 path goes through it.
+func c11Run(f *vFix, op vOp) vRes {
+	if op.T != c11AuxFault {
+		return f.vRun(op)
+	}
+	dir := dirs.SnapAuxStoreInfoDir
+	aside := dir + ".verif-aside"
+	had := false
+	if _, err := os.Lstat(dir); err == nil {
+		if err := os.Rename(dir, aside); err != nil {
+			eng.HarnessError("cannot move %s aside: %v", dir, err)
+		}
+		had = true
+	}
+	if err := os.MkdirAll(filepath.Dir(dir), 0755); err != nil {
+		eng.HarnessError("cannot create %s: %v", filepath.Dir(dir), err)
+	}
+	if err := os.WriteFile(dir, []byte("not a directory\n"), 0644); err != nil {
+		eng.HarnessError("cannot block %s: %v", dir, err)
+	}
+	plain := op
+	plain.T = ""
+	res := f.vRun(plain)
+	// the fault is over with the change: what was there before is back
+	if err := os.Remove(dir); err != nil {
+		eng.HarnessError("cannot unblock %s: %v", dir, err)
+	}
+	if had {
+		if err := os.Rename(aside, dir); err != nil {
+			eng.HarnessError("cannot move %s back: %v", aside, err)
+		}
+	}
+	return res
+}
+
+// c11Replay is vReplay through c11Run. The caller must close the fixture.
+func c11Replay(c *C, p vPath) (*vFix, []vRes) {
+	f := vNewFix(c, p.Cfg)
+	res := make([]vRes, 0, len(p.Ops))
+	for _, op := range p.Ops {
+		res = append(res, c11Run(f, op))
+	}
+	return f, res
 }
 
 func c11Key(viol string, op vOp) string {
@@ -214,6 +276,12 @@ func (cr *c11Runner) count(res vRes, op vOp) {
 	if op.F > 0 {
 		fl = ":failed"
 	}
+	if op.T != "" {
+		fl = ":" + op.T
+		if res.Status != "Done" {
+			r.Add("aux_store_info_faults_that_failed_the_change", 1)
+		}
+	}
 	r.Distinct("outcome", fmt.Sprintf("%s%s:%s:undone=%v:disc=%d", op.K, fl, res.Status, undone > 0, len(res.Disc)))
 }
 
@@ -237,7 +305,7 @@ func (cr *c11Runner) continueFrom(path vPath, key string, a, b vSnap, failuresLe
 	for _, op := range c11Gen(st) {
 		np := vPath{Cfg: path.Cfg, Ops: append(append([]vOp(nil), path.Ops...), op)}
 		cr.r.NoteCurrent(eng.JSON(c11Case{Path: np}))
-		f, ress := vReplay(cr.c, np)
+		f, ress := c11Replay(cr.c, np)
 		res := ress[len(ress)-1]
 		if res.Rejected {
 			f.close()
@@ -282,7 +350,7 @@ func (cr *c11Runner) failingOps(st vState, onlyOp int, failuresLeft int) {
 		if f != nil {
 			f.close()
 		}
-		f, _ = vReplay(c, st.Path)
+		f, _ = c11Replay(c, st.Path)
 		if k, _, _ := f.vStateKey(); k != st.Key {
 			eng.HarnessError("replay diverged: path %s reached\n  %s\nbut was recorded as\n  %s", eng.JSON(st.Path), k, st.Key)
 		}
@@ -291,21 +359,33 @@ func (cr *c11Runner) failingOps(st vState, onlyOp int, failuresLeft int) {
 	rebuild()
 	defer func() { f.close() }()
 	limit := -1
-	for k := 0; limit < 0 || k <= limit; k++ {
-		op.F = k + 1
+	for k := 0; limit < 0 || k <= limit+1; k++ {
+		op.F, op.T = k+1, ""
+		if limit >= 0 && k == limit+1 {
+			// after the splice points: the environment fault inside link-snap's handler
+			if !c11Links(op) {
+				break
+			}
+			op.F, op.T = 0, c11AuxFault
+		}
 		np := vPath{Cfg: st.Path.Cfg, Ops: append(append([]vOp(nil), hist...), op)}
 		r.NoteCurrent(eng.JSON(c11Case{Path: np}))
-		res := f.vRun(op)
+		res := c11Run(f, op)
 		if res.Rejected {
 			r.Add("refused_operations", 1)
 			return
 		}
-		limit = res.NTasks
-		if res.ReIdx >= 0 {
-			limit = res.ReIdx
+		if op.T == "" {
+			limit = res.NTasks
+			if res.ReIdx >= 0 {
+				limit = res.ReIdx
+			}
 		}
 		cr.count(res, op)
-		if !strings.HasPrefix(res.Status, "Error") {
+		if op.T != "" && res.Status == "Done" {
+			// the linked revision has no snap-id (a sideloaded one): no auxiliary store info is written, the
+			// fault is not hit and the change is a failure-free one
+		} else if !strings.HasPrefix(res.Status, "Error") {
 			r.Violation("unsettled-or-not-failed:"+op.K, fmt.Sprintf("change with injected failure ended %s (%s)", res.Status, res.ChgErr), c11Case{Path: np})
 		}
 		viol := c11Invariants(f)
@@ -314,12 +394,12 @@ func (cr *c11Runner) failingOps(st vState, onlyOp int, failuresLeft int) {
 			// confirm on the minimal history (fresh fixture) before reporting
 			mp := vPath{Cfg: st.Path.Cfg, Ops: append(append([]vOp(nil), st.Path.Ops...), op)}
 			f.close()
-			f, _ = vReplay(c, mp)
+			f, _ = c11Replay(c, mp)
 			if v2 := c11Invariants(f); len(v2) > 0 {
 				cr.report(mp, op, v2, f)
 			} else {
 				f.close()
-				f, _ = vReplay(c, np)
+				f, _ = c11Replay(c, np)
 				if v3 := c11Invariants(f); len(v3) > 0 {
 					cr.report(np, op, v3, f)
 				} else {
@@ -350,7 +430,7 @@ func (cr *c11Runner) failingOps(st vState, onlyOp int, failuresLeft int) {
 	}
 }
 
-const c11Rule = "all operation sequences up to the length bound over the alphabet x {A,B} (store operations on both snaps, sideload from a local file on A), states deduplicated on the canonical key (breadth-first, replay from a fresh fixture); on every generated state every operation x every splice point 0..last task (error-trigger joined to all lanes) within the failure budget, continuing from states a failed operation produced; invariants evaluated after every settled change; non-trivial = the change completed or had completed tasks to undo"
+const c11Rule = "all operation sequences up to the length bound over the alphabet x {A,B} (store operations on both snaps, sideload from a local file on A), states deduplicated on the canonical key (breadth-first, replay from a fresh fixture); on every generated state every operation x every splice point 0..last task (error-trigger joined to all lanes) and, for the operations that link a revision (install, refresh->new, refresh->kept, revert, enable), the environment fault \"auxiliary store info cannot be written\" (a regular file in place of its directory for the time of the change: link-snap fails inside its handler after the backend link) within the failure budget, continuing from states a failed operation produced; invariants evaluated after every settled change; non-trivial = the change completed or had completed tasks to undo"
 
 func (s *verifC11Suite) TestVerifC11(c *C) {
 	r := eng.Start("C11", "model_checking", 300*time.Second, 14*time.Minute)
@@ -376,7 +456,7 @@ func (s *verifC11Suite) TestVerifC11(c *C) {
 		}
 		f := vNewFix(c, cas.Path.Cfg)
 		for i, op := range cas.Path.Ops {
-			res := f.vRun(op)
+			res := c11Run(f, op)
 			viol := c11Invariants(f)
 			fmt.Printf("%d %s -> %s %s %s\n   A=%s\n   B=%s\n   world=%s\n   invariants: %v\n", i, op, res.Status, res.Err, res.ChgErr, eng.JSON(f.observe(vSnapA)), eng.JSON(f.observe(vSnapB)), eng.JSON(f.world()), viol)
 			for _, v := range viol {
